@@ -64,6 +64,14 @@ Definition run_spec (a : sx) : sx :=
   | _ => sx_err "c04.spec"
   end.
 
+(** c04.cur ('SchemaName go-type-name descriptor value k): c04.spec after the read
+    cursors inside the Go value were advanced by k (same expected answer) *)
+Definition run_cur4 (a : sx) : sx :=
+  match a with
+  | SL [nm; g; d; v; _] => run_spec (SL [nm; g; d; v])
+  | _ => sx_err "c04.cur"
+  end.
+
 (** c04.extmsg (descriptor-of-Message wc addr fee body-cell (init?)) -> 'err | (cell schema-equal?) *)
 Definition run_extmsg (a : sx) : sx :=
   match a with
@@ -89,4 +97,5 @@ Definition run_extmsg (a : sx) : sx :=
 Definition run04 (name : string) (a : sx) : sx :=
   if String.eqb name "c04.spec" then run_spec a
   else if String.eqb name "c04.extmsg" then run_extmsg a
+  else if String.eqb name "c04.cur" then run_cur4 a
   else H03.run03 name a.
